@@ -4,8 +4,11 @@ package checks
 // panic.
 
 import (
+	"bytes"
+	"encoding/asn1"
 	"encoding/json"
 	"fmt"
+	"math/big"
 	"os"
 	"path/filepath"
 	"runtime/debug"
@@ -278,7 +281,7 @@ func c05JSONBases() []struct {
 func TestC05_Structured(t *testing.T) {
 	st := NewStats("C05", "TestC05_Structured", "enumeration: for each base document (CBOR: 6 claims maps of both profiles, a components array, a component map, 2 helper shapes; JSON: the library's own JSON of 4 claims-sets, components, component, a helper shape) every node (keys and values at every depth) x {null, undefined, empty, duplicate, delete, nest in array/map, tag, indefinite, 8-byte head, bstr-wrap, double, swap with sibling, tag18} and x a pool of ~38 replacement items of every CBOR type (JSON: 9 structural mutations x pool of 31 values incl. 300-deep nesting, 1e400, non-base64); each mutant goes to every CBOR (resp. JSON) entry point incl. the per-type unmarshal methods, both extension types and the populate helpers with flat / embedded / interface-embedded destinations, and (wrapped as payload of a correctly signed tag-18 envelope) to the four COSE entry points; the envelope itself is mutated the same way; both profile claims (CBOR -75000 and 265, JSON psa-profile and eat-profile) are set to every PAIR of pool items; after the calls made for each input a canary battery of ordinary operations on unrelated known-good values must still not panic (state left behind by failed calls). Oracle: recover() - no panic while decoding nor while validating / reading every getter / re-encoding to CBOR and JSON / verifying with 10 keys whatever was returned without error. Non-trivial = the input got past the first decoding layer (well-formed CBOR / valid JSON) or was decoded; distinct = family + input")
 	st.Exhaustive = true
-	st.Require = []string{"decoded-ok", "wellformed-rejected", "family=cbor", "family=json", "family=cose", "family=enc-cbor", "family=enc-json", "mut=null", "mut=duplicate", "mut=swap", "mut=text-length", "mut=cose-header"}
+	st.Require = []string{"decoded-ok", "wellformed-rejected", "family=cbor", "family=json", "family=cose", "family=enc-cbor", "family=enc-json", "mut=null", "mut=duplicate", "mut=swap", "mut=text-length", "mut=cose-header", "mut=text-pool", "mut=signature-shape", "mut=member-pair"}
 	defer st.Flush(t)
 	shard, shards := shardInfo()
 	idx := 0
@@ -360,6 +363,18 @@ func TestC05_Structured(t *testing.T) {
 					c05Run(st, coseFamilies, icbor.Encode(c05Envelope(data)), "mut=text-length").report(t)
 				}
 			}
+			// ... and by every text of the generators' pool (hash algorithm
+			// names, member names, format verbs, ...)
+			for _, txt := range append(append([]string{}, interestingTexts...), nonUTF8Texts...) {
+				if !mine() {
+					continue
+				}
+				c := base.node.Clone()
+				cborSlots(c)[si].set(icbor.Tstr(txt))
+				data := icbor.Encode(c)
+				c05Run(st, cborFamilies, data, "mut=text-pool").report(t)
+				c05Run(st, coseFamilies, icbor.Encode(c05Envelope(data)), "mut=text-pool").report(t)
+			}
 		}
 	}
 	for _, base := range c05JSONBases() {
@@ -384,6 +399,14 @@ func TestC05_Structured(t *testing.T) {
 					jsonSlots(c)[si].set(jRaw(string(q)))
 					c05Run(st, jsonFamilies, []byte(c.String()), "mut=text-length").report(t)
 				}
+			}
+			for _, txt := range interestingTexts {
+				if !mine() {
+					continue
+				}
+				c := root.clone()
+				jsonSlots(c)[si].set(jStr(txt))
+				c05Run(st, jsonFamilies, []byte(c.String()), "mut=text-pool").report(t)
 			}
 		}
 	}
@@ -427,6 +450,91 @@ func TestC05_Structured(t *testing.T) {
 						t.Fatalf("VERIF-INFRA: %v", err)
 					}
 					c05Run(st, coseFamilies, icbor.Encode(icose.Envelope(prot, unprot, payload, sig)), "mut=cose-header").report(t)
+				}
+			}
+		}
+	}
+	// signature SHAPES under every algorithm: ASN.1 DER (r, s) with integers
+	// of many sizes (smaller / larger than any curve order, zero, negative),
+	// raw strings of every length 0..140 step 1 around the standard sizes
+	{
+		payload := baseValid(P2, 1).WireBytes()
+		type rs struct{ R, S *big.Int }
+		var sigs [][]byte
+		for _, nr := range []int{0, 1, 20, 31, 32, 33, 48, 49, 65, 66, 67, 128, 512} {
+			for _, ns := range []int{1, 32, 48, 66, 67, 300} {
+				r := new(big.Int).SetBytes(bytes.Repeat([]byte{0xa5}, nr))
+				sv := new(big.Int).SetBytes(bytes.Repeat([]byte{0x5a}, ns))
+				if der, err := asn1.Marshal(rs{r, sv}); err == nil {
+					sigs = append(sigs, der)
+				}
+				if der, err := asn1.Marshal(rs{new(big.Int).Neg(r), sv}); err == nil && nr%16 == 0 {
+					sigs = append(sigs, der, append(append([]byte{}, der...), 0x00))
+				}
+			}
+		}
+		sigs = append(sigs, []byte{0x30, 0x00}, []byte{0x30, 0x03, 0x02, 0x01, 0x00}, []byte{0x30, 0x06, 0x02, 0x01, 0x00, 0x02, 0x01, 0x00}, []byte{0x30, 0x84, 0xff, 0xff, 0xff, 0xff}, []byte{0x30, 0x80, 0x00, 0x00})
+		for n := 0; n <= 140; n++ {
+			if n < 8 || (n >= 28 && n <= 36) || (n >= 60 && n <= 68) || (n >= 94 && n <= 98) || (n >= 130 && n <= 134) || n%16 == 0 {
+				sigs = append(sigs, bytes.Repeat([]byte{0x7f}, n))
+			}
+		}
+		for _, alg := range []int64{icose.ES256, icose.ES384, icose.ES512, icose.EdDSA, icose.PS256, -47, -257, 0, 5} {
+			prot := icose.ProtectedAlg(alg)
+			for _, sg := range sigs {
+				if !mine() {
+					continue
+				}
+				c05Run(st, coseFamilies, icbor.Encode(icose.Envelope(prot, icbor.Map(), payload, sg)), "mut=signature-shape").report(t)
+			}
+		}
+	}
+	// pairs of TOP-LEVEL entries changed at once: one becomes null, the other
+	// takes a value of a wrong type (a decode that fails in one member after
+	// another member was reset)
+	for _, base := range c05CBORBases() {
+		if !(strings.HasPrefix(base.name, "p1") || strings.HasPrefix(base.name, "p2")) {
+			continue
+		}
+		n := len(base.node.Pairs)
+		for i := 0; i < n; i++ {
+			for j := 0; j < n; j++ {
+				if i == j {
+					continue
+				}
+				for _, a := range []*icbor.Node{icbor.Null(), icbor.Undef(), icbor.Arr(), icbor.Map()} {
+					for _, b := range []*icbor.Node{icbor.Tstr("x"), icbor.U(1 << 40), icbor.Bstr([]byte{1}), icbor.Arr(icbor.Null())} {
+						if !mine() {
+							continue
+						}
+						c := base.node.Clone()
+						c.Pairs[i][1], c.Pairs[j][1] = a.Clone(), b.Clone()
+						c05Run(st, cborFamilies, icbor.Encode(c), "mut=member-pair").report(t)
+					}
+				}
+			}
+		}
+	}
+	for _, base := range c05JSONBases() {
+		root, err := parseJN(base.doc)
+		if err != nil || root.kind != 'o' || !(strings.HasPrefix(base.name, "p1") || strings.HasPrefix(base.name, "p2")) {
+			continue
+		}
+		n := len(root.keys)
+		for i := 0; i < n; i++ {
+			for j := 0; j < n; j++ {
+				if i == j {
+					continue
+				}
+				for _, a := range []*jn{jNull(), jArr(), jRaw("{}")} {
+					for _, b := range []*jn{jStr("x"), jNum("1099511627776"), jRaw("true"), jArr(jNull())} {
+						if !mine() {
+							continue
+						}
+						c := root.clone()
+						c.vals[i], c.vals[j] = a.clone(), b.clone()
+						c05Run(st, jsonFamilies, []byte(c.String()), "mut=member-pair").report(t)
+					}
 				}
 			}
 		}
